@@ -133,6 +133,7 @@ pub enum ParameterKind {
   Number,
   String,
   Callable,
+  Enumerator,
 }
 
 impl ParameterKind {
@@ -150,6 +151,7 @@ impl ParameterKind {
         ObjectKind::Closure | ObjectKind::Fun | ObjectKind::Native | ObjectKind::Method
       ),
       (ParameterKind::String, ValueKind::Obj) => value.is_obj_kind(ObjectKind::String),
+      (ParameterKind::Enumerator, ValueKind::Obj) => value.is_obj_kind(ObjectKind::Enumerator),
       _ => false,
     }
   }
@@ -182,6 +184,7 @@ impl Display for ParameterKind {
       ParameterKind::Number => write!(f, "number"),
       ParameterKind::String => write!(f, "string"),
       ParameterKind::Callable => write!(f, "callable"),
+      ParameterKind::Enumerator => write!(f, "iterator"),
     }
   }
 }
